@@ -458,7 +458,7 @@ def run(ctx):
     all_files = [f for f in core.bundled_files() if f not in ("HED_score_1.0.0.xml", "HED_testlib_1.0.2.xml")]
     files = all_files if ctx.thorough else ["HED8.3.0.xml", "HED8.2.0.xml", "HED_score_2.0.0.xml", "HED_testlib_3.0.0.xml"]
     per_class = 4
-    budget_end = ctx.deadline or (ctx.t0 + (1500 if ctx.thorough else 240))
+    budget_end = ctx.deadline or (ctx.t0 + (5400 if ctx.thorough else 240))
     ctx.rec.notes["bounds"] = {"schemas": files, "positions": "all" if ctx.thorough else f"<= {per_class + 1} per (fault kind, section, depth)",
                                "fault_kinds": sorted(EXPECTED)}
     unchanged(ctx, all_files)
